@@ -632,6 +632,27 @@ int main(int argc, char **argv) {
           R.violation("segments/energy-depends-on-induced-dipoles", "CalcStaticEnergy_site called with polarised PolarSite arguments differs from the energy of their permanent moments", J().d("E_polar_sites", (double)ssum).d("E_static_copies", (double)sum));
       }
       double e[6] = {ee.CalcStaticEnergy(a1, b1), ee.CalcStaticEnergy(b1, a1), ee.CalcStaticEnergy(a2, b2), ee.CalcStaticEnergy(b2, a2), ee.CalcStaticEnergy(a1, b2), ee.CalcStaticEnergy(a2, b1)};
+      // the same invariance at segment level: both segments rotated as a whole (segment.Rotate) about a common point
+      {
+        Eigen::Matrix3d Rs = to_eigen(rand_rotation(r));
+        Eigen::Vector3d ref = r.coin() ? Eigen::Vector3d(origin) : Eigen::Vector3d(origin + Eigen::Vector3d(r.uni(-5, 5), r.uni(-5, 5), r.uni(-5, 5)));
+        StaticSegment ra1 = a1, rb1 = b1;
+        PolarSegment ra2 = a2, rb2 = b2;
+        ra1.Rotate(Rs, ref); rb1.Rotate(Rs, ref); ra2.Rotate(Rs, ref); rb2.Rotate(Rs, ref);
+        double es = ee.CalcStaticEnergy(ra1, rb1), ep = ee.CalcStaticEnergy(ra2, rb2);
+        LD lever = 0;
+        for (const Spec &x : SA) lever = std::max(lever, (LD)(x.pos - ref).norm());
+        for (const Spec &y : SB) lever = std::max(lever, (LD)(y.pos - ref).norm());
+        LD rmin = 1e300L;
+        for (const Spec &x : SA) for (const Spec &y : SB) rmin = std::min(rmin, norm(ldpos(x) - ldpos(y)));
+        LD tols = 5e-12L * sc * (1 + lever / rmin);
+        int maxrank = 0;
+        for (const Spec &x : SA) maxrank = std::max(maxrank, x.rank);
+        for (const Spec &y : SB) maxrank = std::max(maxrank, y.rank);
+        R.eval("segment_rotation/max-rank-" + std::to_string(maxrank));
+        if (fabsl((LD)es - sum) > tols || fabsl((LD)ep - sum) > tols)
+          R.violation("rotation/segment-energy", "energy of two segments changes under a common rotation of both segments (segment.Rotate: positions and moments)", J().i("max_rank", maxrank).d("E", (double)sum).d("E_static_segments_rotated", es).d("E_polar_segments_rotated", ep).d("tolerance", (double)tols));
+      }
       R.eval("segments");
       for (int k = 0; k < 6; ++k)
         if (fabsl((LD)e[k] - sum) > 1e-12L * sc || fabsl((LD)e[k] - clus) > 5e-7L * sc) {
